@@ -41,6 +41,7 @@ CHECKS = {
     'C07': 'dst.checks.c07',
     'C08': 'dst.checks.c08',
     'C06': 'dst.checks.c06',
+    'C09': 'dst.checks.c09',
     'C12': 'dst.checks.c12',
     'C13': 'dst.checks.c13',
     'C14': 'dst.checks.c14',
@@ -464,7 +465,8 @@ def main(argv):
             global REPLAYS
             path, _ = write_replay(prop, sig, sd, tier, mod, sc)
             if len(argv) > i + 2:
-                os.replace(path, argv[i + 2])
+                import shutil
+                shutil.move(path, argv[i + 2])
                 path = argv[i + 2]
             print('wrote', path, sig)
             return 0
